@@ -619,7 +619,7 @@ def item_size_agreement(ctx, report, ab, RULE='C12.R7', title='the size counted 
             # fixed 32 byte random: composes through Vector.compose of its base and strips the synthetic prefix
             base_comp = [k for k in c.mro[1:] if isinstance(k, ClassInfo) and 'compose' in k.methods and k is not comp.cls]
             if base_comp:
-                ef = emit_form(base_comp[0].methods['compose'])
+                ef = emit_form(base_comp[0].resolve('compose'))
         if ef.startswith('fixed:') and ef[6:].isdigit() and sf in ('fixed:item_size', 'fixed:1'):
             # widths from the layout: the counted size per item has to be the width the composer writes per item
             counted = prm.attrs.get('item_size') if sf == 'fixed:item_size' else 1
